@@ -251,7 +251,7 @@ class CtorWalker:
             e = self.expr(s.value)
             if self._effect_in_expr(s.value, line):
                 return
-            if e["k"] == "derived" and any(isinstance(n, ast.Call) for n in ast.walk(s.value)):
+            if e["k"] == "derived":
                 # a computation on the arguments inside the constructor may reject them
                 self.out.append({"k": "raise", "src": "call in " + src(s.value, 60), "line": line})
             for t in s.targets:
